@@ -367,7 +367,15 @@ def rule_shared_block(R):
     _r(R)
 
 
+def rule_shared_len16(R):
+    """"carrying exactly that correlation data": binary data (and the response topic) of every length up to 65535 is written
+    with a checked two-byte length -- C09's rule"""
+    from .c09 import rule_len16 as _r
+    _r(R)
+
+
 def run(R):
+    R.rule("len16", rule_shared_len16)
     R.rule("block", rule_shared_block)
     R.rule("props-iter", rule_property_cursor)
     R.rule("decode", rule_decode)
